@@ -1447,6 +1447,21 @@ fn execute_inner(ctx: &mut Ctx, lines: &[String]) -> Vec<String> {
                 }
                 "ok".into()
             }
+            // the external tool puts a fresh, empty file at the path of the current file (if none is there)
+            ["EXTTOUCH", now] => {
+                ctx.report.count("op.EXTTOUCH");
+                let now: u64 = now.parse().unwrap();
+                let direct = f.cfg.rot.as_ref().map_or(false, |r| r.naming == "numd" || r.naming == "tsd");
+                // (direct namings: the path of the current file is not known to an outsider once it is gone)
+                if (f.w.is_some() || f.lg.is_some()) && !direct {
+                    let p = f.current_path();
+                    if !p.exists() {
+                        std::fs::write(&p, b"").unwrap();
+                        flexi_logger::verif_hooks::set_creation(&p, stamp_to_local(now));
+                    }
+                }
+                "ok".into()
+            }
             ["REOPEN", now, fl] => {
                 let now: u64 = now.parse().unwrap();
                 ctx.report.count("op.REOPEN");
